@@ -921,21 +921,16 @@ def _resolve_action_conflicts(
                     len(ordered_heads),
                 )
                 candidate_head = random.choice(ordered_heads[:equal_heads_index])
-                winning_element = get_flow_config_from_head(
-                    state, candidate_head
-                ).elements[candidate_head.position]
-                assert isinstance(winning_element, SpecOp)
-                flow_state = get_flow_state_from_head(state, candidate_head)
-                winning_event = get_event_from_element(
-                    state, flow_state, winning_element
-                )
+                winning_event = _try_get_event_from_head(state, candidate_head)
                 log.info(
                     "Winning action at head: %s scores=%s",
                     candidate_head,
                     candidate_head.matching_scores,
                 )
 
-                if _try_generate_action_event(state, candidate_head):
+                if winning_event is not None and _try_generate_action_event(
+                    state, candidate_head
+                ):
                     picked_head = candidate_head
                     advancing_heads.append(picked_head)
                 else:
@@ -958,14 +953,11 @@ def _resolve_action_conflicts(
                 ):
                     # The flow was aborted together with a loosing flow of this group
                     continue
-                competing_element = get_flow_config_from_head(state, head).elements[
-                    head.position
-                ]
-                assert isinstance(competing_element, SpecOp)
                 competing_flow_state = get_flow_state_from_head(state, head)
-                competing_event = get_event_from_element(
-                    state, competing_flow_state, competing_element
-                )
+                competing_event = _try_get_event_from_head(state, head)
+                if competing_event is None:
+                    # The flow has failed alone
+                    continue
                 is_same_action = winning_event.is_equal(competing_event)
                 refers_to_other_action = (
                     isinstance(winning_event, ActionEvent)
@@ -1051,17 +1043,34 @@ def _try_generate_action_event(state: State, head: FlowHead) -> bool:
         _generate_action_event_from_actionable_element(state, head)
         return True
     except Exception as e:
-        flow_state = get_flow_state_from_head(state, head)
-        log.warning("Flow '%s' failed to send an event: %s", flow_state.flow_id, e)
-        _abort_flow(state, flow_state, head.matching_scores)
-        _push_left_internal_event(
-            state,
-            Event(
-                name="ColangError",
-                arguments={"type": str(type(e).__name__), "error": str(e)},
-            ),
-        )
+        _fail_flow_of_head(state, head, e)
         return False
+
+
+def _try_get_event_from_head(state: State, head: FlowHead) -> Optional[Event]:
+    """Evaluate the action event of an actionable head again (the context can have changed
+    since the head stopped on it); a flow whose event cannot be evaluated fails alone."""
+    try:
+        element = get_flow_config_from_head(state, head).elements[head.position]
+        assert isinstance(element, SpecOp)
+        flow_state = get_flow_state_from_head(state, head)
+        return get_event_from_element(state, flow_state, element)
+    except Exception as e:
+        _fail_flow_of_head(state, head, e)
+        return None
+
+
+def _fail_flow_of_head(state: State, head: FlowHead, e: Exception) -> None:
+    flow_state = get_flow_state_from_head(state, head)
+    log.warning("Flow '%s' failed to send an event: %s", flow_state.flow_id, e)
+    _abort_flow(state, flow_state, head.matching_scores)
+    _push_left_internal_event(
+        state,
+        Event(
+            name="ColangError",
+            arguments={"type": str(type(e).__name__), "error": str(e)},
+        ),
+    )
 
 
 def _fail_event_source_flow(state: State, event: Event, e: Exception) -> None:
